@@ -65,6 +65,10 @@ def make_case(rng, b, fam, orient):
         for i in range(AF + AO):
             for j in range(AF + AO):
                 qs.add(gen.min_image_sq(G, [int(pos_all[t, i, c] - pos_all[t, j, c]) for c in range(3)], N, R))
+    # two distinct atoms at exactly the same position are at distance 0 = a bin edge: outside the margin rule
+    coincide = any(tuple(pos_all[t, i]) == tuple(pos_all[t, j]) for t in range(T) for i in range(AF + AO) for j in range(i))
+    if coincide:
+        return None
     for _ in range(100):
         res = float(rng.uniform(0.3, 1.2))
         max_dist = float(rng.uniform(2.0, 5.5))
@@ -142,7 +146,7 @@ def run(rep):
                 'histogram; raw counts symmetric in the two species) and Transitions.radial_distribution (per state, per symbol, per bin; the '
                 'states partition the pairs; @X only at sites labelled X; X->Y only between leaving X and reaching Y). '
                 'Non-trivial = States record with >= 2 different states observed.')
-    rep.assumptions = ['bin edges: no attainable distance within 2e-5 relative of an edge, so histogram conventions (open/closed side) do not matter',
+    rep.assumptions = ['bin edges: no attainable distance within 2e-5 relative of an edge (two distinct atoms never coincide: distance 0 is the first edge), so histogram conventions (open/closed side) do not matter',
                        'the name given to in-transit frames whose previous or next site does not exist ("~>...") is not constrained; their counts are compared in total',
                        'shell normalisation is applied by alpha from det G and the resolution']
     r = core.model_check('MC_Sites', mc_cfg(5 if quick else 7, 2), workers=8, timeout=2400)
